@@ -84,6 +84,7 @@ theorem adaptNode_rename (F : Facts) (f : Nat → Nat) (ctx opsets : List Req) :
     | func d v => rfl
     | internal => exact adaptBodies_rename F f ctx subs
     | intro => exact adaptBodies_rename F f ctx subs
+    | introOpt => exact adaptBodies_rename F f ctx subs
     | inline a b => exact adaptBodies_rename F f ctx subs
     | op d o v => exact adaptBodies_rename F f ctx subs
 theorem adaptBodies_rename (F : Facts) (f : Nat → Nat) (ctx : List Req) : ∀ gs : List PGraph,
